@@ -196,3 +196,7 @@ func genBug(r *RNG, heavy bool) *BuggifySpec {
 	}
 	return b
 }
+
+type hermesWater = hermes.WaterSharedVars
+type hermesNitro = hermes.NitroSharedVars
+type hermesCrop = hermes.CropSharedVars
